@@ -199,6 +199,85 @@ example : satisfied .ut (some ⟨0, false, 0, 2⟩) (cU .none (.ok (some 3)) 1) 
 example : run .ut .tn (some ⟨5, true, 7, 2⟩) [cU .none (.ok none) 0] = (true, [false]) := by decide
 end
 
+/-- **hooks that edit the case** (list level, full strength): with hooks that write `Data`, `Value`, `Error`
+(and `Constraint`) into the case they are handed, something is reported iff the type lacks the interface and
+there is a case, or some case that is applicable *as written in the list* is not satisfied *as completed by its
+hooks* — for every list without a K1-shaped completed case and every `TypeHelper`. -/
+theorem reportsX_iff_partial (h : Helper) (tk : TypeKind) (hb : Option HelperBeh) (xs : List XCase)
+    (hk : ∀ x ∈ xs, k1 h x.completed = false) :
+    ((runX h tk hb xs).1 = true ∨ (runX h tk hb xs).2.any id = true) ↔
+      ((implements h tk = false ∧ xs ≠ []) ∨
+       (implements h tk = true ∧ ∃ x ∈ xs, applicable h x.base = true ∧ satisfied h hb x.completed = false)) := by
+  unfold runX
+  have hmap : xs.map XCase.eff = xs.map XCase.completed := List.map_congr_left (fun x _ => eff_eq_completed x)
+  rw [hmap]
+  have := reports_iff_partial h tk hb (xs.map XCase.completed) (by
+    intro c hc
+    obtain ⟨x, hx, rfl⟩ := List.mem_map.mp hc
+    exact hk x hx)
+  rw [this]
+  constructor
+  · rintro (⟨hi, hne⟩ | ⟨hi, c, hc, ha, hs⟩)
+    · left; exact ⟨hi, by intro h0; apply hne; simp [h0]⟩
+    · right
+      obtain ⟨x, hx, rfl⟩ := List.mem_map.mp hc
+      exact ⟨hi, x, hx, ha, hs⟩
+  · rintro (⟨hi, hne⟩ | ⟨hi, x, hx, ha, hs⟩)
+    · left; exact ⟨hi, by intro h0; apply hne; simpa using h0⟩
+    · right; exact ⟨hi, x.completed, List.mem_map.mpr ⟨x, hx, rfl⟩, ha, hs⟩
+
+/-- per case: the verdict on a case with editing hooks is the verdict on the completed case -/
+theorem caseX_reported_iff (h : Helper) (hb : Option HelperBeh) (x : XCase) (hk : k1 h x.completed = false) :
+    (if h.isMarshal then marshalCase h.isBinary x.eff else unmarshalCase hb x.eff) = !satisfied h hb x.completed := by
+  rw [eff_eq_completed]; exact case_reported_iff h hb x.completed hk
+
+/-- a `Constraint` written by a hook has no effect -/
+theorem hook_constraint_ignored (h : Helper) (tk : TypeKind) (hb : Option HelperBeh) (xs : List XCase) (n m : Option Nat) :
+    runX h tk hb (xs.map fun x => { x with before := { x.before with constraint := n }, after := { x.after with constraint := m } }) =
+      runX h tk hb xs := by
+  unfold runX
+  rw [List.map_map]
+  congr 1
+
+/-- conservative extension: hooks that write nothing give the helpers of the unedited cases -/
+theorem runX_no_edits (h : Helper) (tk : TypeKind) (hb : Option HelperBeh) (cases : List Case) :
+    runX h tk hb (cases.map fun c => ⟨c, Edit.none, Edit.none⟩) = run h tk hb cases := by
+  unfold runX
+  rw [List.map_map]
+  have : (XCase.eff ∘ fun c => (⟨c, Edit.none, Edit.none⟩ : XCase)) = id := by
+    funext c
+    obtain ⟨cc, hbf, haf, p, m, u, d, v⟩ := c
+    cases hbf <;> cases haf <;> rfl
+  rw [this, List.map_id]
+
+/-- cases for the other direction stay ignored, whatever their hooks would write -/
+theorem otherX_direction_ignored (h : Helper) (tk : TypeKind) (hb : Option HelperBeh) (xs : List XCase)
+    (i : Nat) (x : XCase) (hx : xs[i]? = some x) (hna : applicable h x.base = false) :
+    (runX h tk hb xs).2[i]? = some false := by
+  unfold runX
+  apply other_direction_ignored h tk hb (xs.map XCase.eff) i x.eff
+  · simp [hx]
+  · rw [eff_eq_completed]; exact hna
+
+/-! non-vacuity: the Before hook completes a case whose literal is wrong, and spoils one whose literal is right -/
+section
+private def lit (d : Option Bytes) (p : Pred) (m : MBeh) : Case := ⟨0, .ok, .nil, p, m, .ok none, d, 0⟩
+example : runX .mt .tv none [⟨lit (some [120]) .none (.data (some [97])), ⟨some (some [97]), none, none, none⟩, Edit.none⟩] = (false, [false]) := by decide
+example : run .mt .tv none [lit (some [120]) .none (.data (some [97]))] = (false, [true]) := by decide
+example : runX .mt .tv none [⟨lit (some [97]) .none (.data (some [97])), ⟨some (some [120]), none, none, none⟩, Edit.none⟩] = (false, [true]) := by decide
+-- the hook sets the error predicate
+example : runX .mj .tv none [⟨lit none .none (.err [98] none), ⟨none, none, some (.eq [98]), none⟩, Edit.none⟩] = (false, [false]) := by decide
+-- an absent hook writes nothing
+example : runX .mt .tv none [⟨{ lit (some [120]) .none (.data (some [97])) with before := .nil }, ⟨some (some [97]), none, none, none⟩, Edit.none⟩] = (false, [true]) := by decide
+-- After writes last
+example : runX .mt .tv none [⟨{ lit (some [120]) .none (.data (some [97])) with after := .ok }, ⟨some (some [98]), none, none, none⟩, ⟨some (some [97]), none, none, none⟩⟩] = (false, [false]) := by decide
+-- Value: the number New gets and the expected value (Unmarshal helpers)
+example : runX .ut .tv none [⟨⟨0, .ok, .nil, .none, .data none, .ok (some 5), none, 0⟩, ⟨none, some 5, none, none⟩, Edit.none⟩] = (false, [false]) := by decide
+example : runX .ut .tv (some ⟨1, true, 0, 0⟩) [⟨⟨0, .ok, .nil, .none, .data none, .ok none, none, 0⟩, ⟨none, some 2, none, none⟩, Edit.none⟩] = (false, [true]) := by decide  -- New(2) = 3 ≠ 2
+-- a constraint written by Before comes too late
+example : runX .mt .tv none [⟨lit (some [120]) .none (.data (some [97])), ⟨none, none, none, some 2⟩, Edit.none⟩] = (false, [true]) := by decide
+end
+
 /-- **tie to the source**: `isForMarshal` / `isForUnmarshal` as translated from `test/constraint.go` on this run -/
 theorem constraint_code_tie (c : Nat) :
     isForMarshal c = Gen.test_isForMarshal c ∧ isForUnmarshal c = Gen.test_isForUnmarshal c :=
